@@ -5,6 +5,7 @@
 -/
 import Upnp.Model.C15Server
 import Upnp.Spec.C15
+import Upnp.Lemmas.C15Text
 namespace Upnp.C15
 
 /-- the monitor run over a list of observations -/
@@ -40,7 +41,7 @@ structure Tracks (js : List SubMon) (s : Sub) (sm : SubMon) : Prop where
   init : sm.gotInitial = true
 
 /-- one NOTIFY of a fan-out, as the monitor sees it -/
-def SubMon.sent (sm : SubMon) (cur : List (Option Int)) : SubMon :=
+def SubMon.sent (sm : SubMon) (cur : List (Option Val)) : SubMon :=
   { sm with nextSeq := specNextKey sm.nextSeq, gotInitial := true, credit := sm.credit - 1, lastVals := cur }
 
 /-- A fan-out: NOTIFYs to the distinct, tracked, unexpired subscribers `L`, each holding a credit.
@@ -68,7 +69,7 @@ theorem notifies_ok (L : List Sub) : ∀ (j : Mon), (L.map (·.sid)).Nodup →
       simp only [notifyOf, Mon.onObs, htr.at_]
       have hu : (sm.url.isNone || sm.url == some s.url) = true := by
         rcases htr.url with h | h <;> simp [h]
-      simp [timeOk, hnt, htr.alive, htr.seq, htr.init, htr.exp, hexp, hcr, hu, SubMon.sent]
+      simp [timeOk, hnt, htr.alive, htr.seq, htr.init, htr.exp, hexp, hcr, hu, SubMon.sent, bodyOk_bodyOf]
     have hnow1 : j1.now = j.now := by rw [hj1]
     have hev1 : j1.evented = j.evented := by rw [hj1]
     have hcur1 : j1.cur = j.cur := by rw [hj1]
